@@ -135,6 +135,14 @@ CHECKS = {
         'note': 'One fault per run; library level (the frontends only add authenticate calls, see C04).',
         'parts': [TracePart('faults', 'c15_faults'), TracePart('readonly', 'c15_readonly'), GoBin('auxdata', 'harness/c15')],
     },
+    'C12': {
+        'level': 'model_checking',
+        'engine': 'mc',
+        'technique': 'exhaustive schedule exploration (state-pruned full reachability) of login sequences against the rewritten agent for every (record set, default) pair, every frontend and upgrade mode; explicit-state closure at library level for the upgradeable flag',
+        'text': 'For every cell the real agent is explored to quiescence under all schedules: with upgrades on, a successful login of an upgradeable record ends with the record under the default set for exactly the same password, aux data and admin flag unchanged, no longer upgradeable; wrong logins, up-to-date records, policy-failing passwords and upgrades-off leave every byte (and the hooks) untouched; the upgradeable flag itself is checked at library level in every state of the C01 closure.',
+        'note': 'Single-client login sequences (idle agent) plus one two-client scenario; the interaction with concurrent management requests is C11.',
+        'parts': [McPart('mc', 'C12', 'cmd/whawty-auth', ['harness/agentmc'], AGENT_RW), GoBin('upgradeable', 'harness/c01', env={'VERIF_AS': 'C12'})],
+    },
     'C19': {
         'level': 'model_checking',
         'engine': 'mc',
